@@ -661,12 +661,30 @@ func (p *Parser) parseLocalizedStr() (secs2.Item, error) {
 			data := p.data[:lastQuotePos]
 			p.forward(i + 1)
 
-			return secs2.NewUTF8StrItem(data), nil
+			return secs2.NewUTF8StrItem(unquoteLocalizedStr(data, quoteCh)), nil
 		default:
 		}
 	}
 
 	return nil, p.errf("unclosed quote string for Localized string item")
+}
+
+// unquoteLocalizedStr undoes the Go-style quoting that both renderers apply to
+// Localized (W) items: Item.ToSML uses %q and the Encoder strconv.Quote, which
+// write non-printable and non-UTF-8 content as backslash escapes (\u00a0, \xe9,
+// \n, \\, ...). Text between double quotes that is a valid Go string literal
+// body is unquoted; anything else (single-quoted text, text without escapes,
+// text that is not a valid literal) is taken as it stands.
+func unquoteLocalizedStr(data string, quoteCh rune) string {
+	if quoteCh != '"' || strings.IndexByte(data, '\\') < 0 {
+		return data
+	}
+
+	if s, err := strconv.Unquote(`"` + data + `"`); err == nil {
+		return s
+	}
+
+	return data
 }
 
 func (p *Parser) parseBoolean(size int) (secs2.Item, error) {
